@@ -72,3 +72,60 @@ func envVarsRead(files map[string]*ast.File) []string {
 	sort.Strings(out)
 	return out
 }
+
+// APIFunc: an exported function or method of the root package.  The check hands the ones that are NEW
+// (not in the pinned declaration list) to the harness, which calls them before a fixed history: a new
+// entry point that disturbs state shared with the old ones (a table sorted in place, a cache primed
+// wrongly) is otherwise unreachable for every input class.
+type APIFunc struct {
+	Key     string   `json:"key"`  // func:Name or method:Recv.Name (as in the declaration table)
+	Name    string   `json:"name"`
+	Recv    string   `json:"recv"` // "" or the receiver's type name (value receiver) or "*T"
+	Params  []string `json:"params"`
+	Results int      `json:"results"`
+}
+
+func apiOf(files map[string]*ast.File) []APIFunc {
+	out := []APIFunc{}
+	for rel, f := range files {
+		if strings.Contains(rel, "/") {
+			continue
+		}
+		for _, d := range f.Decls {
+			fd, ok := d.(*ast.FuncDecl)
+			if !ok || !ast.IsExported(fd.Name.Name) || fd.Type.TypeParams != nil {
+				continue
+			}
+			a := APIFunc{Name: fd.Name.Name, Key: "func:" + fd.Name.Name, Params: []string{}}
+			if fd.Recv != nil && len(fd.Recv.List) == 1 {
+				a.Recv = typeName(fd.Recv.List[0].Type)
+				a.Key = "method:" + strings.TrimPrefix(a.Recv, "*") + "." + fd.Name.Name
+			}
+			for _, fl := range fd.Type.Params.List {
+				n := len(fl.Names)
+				if n == 0 {
+					n = 1
+				}
+				t := typeName(fl.Type)
+				if _, variadic := fl.Type.(*ast.Ellipsis); variadic {
+					t = "..."
+				}
+				for i := 0; i < n; i++ {
+					a.Params = append(a.Params, t)
+				}
+			}
+			if fd.Type.Results != nil {
+				for _, fl := range fd.Type.Results.List {
+					n := len(fl.Names)
+					if n == 0 {
+						n = 1
+					}
+					a.Results += n
+				}
+			}
+			out = append(out, a)
+		}
+	}
+	sort.Slice(out, func(i, j int) bool { return out[i].Key < out[j].Key })
+	return out
+}
